@@ -30,6 +30,18 @@ func main() {
 		for _, id := range core.IDs() {
 			fmt.Println(id)
 		}
+	case "sizes":
+		// markdown rows: id | level | quick cases | thorough cases | cases under the race detector (quick/thorough)
+		for _, id := range core.IDs() {
+			p := core.Lookup(id)
+			race := func(t string) string {
+				if p.RaceFrom == nil || p.RaceFrom(t) < 0 {
+					return "-"
+				}
+				return fmt.Sprint(p.NumCases(t) - p.RaceFrom(t))
+			}
+			fmt.Printf("| %s | %s | %d | %d | %s / %s |\n", id, p.Level, p.NumCases("quick"), p.NumCases("thorough"), race("quick"), race("thorough"))
+		}
 	case "needs-race":
 		p := core.Lookup(os.Args[2])
 		if p != nil && p.RaceFrom != nil && p.RaceFrom(os.Args[3]) >= 0 {
